@@ -12,7 +12,7 @@ META = {
    tech="explicit-state BFS of the real implementation with crash containment (bounded-exhaustive over machines x histories x RNG choice tree)"),
  "C02": dict(engine="E1", cat="model_checking", ref="3 C02",
    text=E1 + " restricted to single-event calls; the observer recounts NormalSent / PaddingSent from the fed history (public inputs only) and judges every returned SendPadding against allowance, machine fraction and framework fraction.",
-   note="Budgets {0,1,2} x fractions {0,.25,.5,1} plus own / framework fractions 5e-324 .. f64::EPSILON; 1-3 machines; histories to the depth bound.",
+   note="Budgets {0,1,2} x fractions {0,.25,.5,1} plus own / framework fractions 5e-324 .. f64::EPSILON and the non-dyadic fractions 1/3, 5/6, 0.7, 0.9 (count ratio exactly at the limit; budgets {0,1,3}); 1-3 machines; histories to the depth bound (one machine: 10-12 calls quick, 12-14 thorough).",
    tech="explicit-state BFS of the real implementation with an independent recounting observer as product state"),
  "C03": dict(engine="E1", cat="model_checking", ref="3 C03",
    text=E1 + " over a virtual clock (steps 0, +1, +3, +1000, -2 us); the observer recomputes blocked time from the fed BlockingBegin/BlockingEnd events and time stamps and judges every returned BlockOutgoing (replace escape, microsecond allowance, machine and framework share). A second phase runs every history to the depth bound over the real std::time::Instant with nanosecond steps and decides the share comparison exactly (dyadic big-integer comparison, no slack).",
@@ -36,7 +36,7 @@ META = {
    tech="explicit-state BFS of the real implementation with a recomputing counter observer"),
  "C09": dict(engine="E1", cat="model_checking", ref="3 C09",
    text=E1 + " for all ordered pairs and triples of signal probes plus general machines with signal transitions; the observer counts distinct signallers and Signal deliveries per live machine in every call and requires nothing pending at return.",
-   note="1-3 machines; signalling on external events, LimitReached, CounterZero and Signal (answering); ended machines.",
+   note="1-3 machines; signalling on external events, LimitReached, CounterZero and Signal (answering); ended machines; plus sets of 258 (thorough: 515 and 65538) machines with signal probes at indices on both sides of 256 / 65536 among listeners.",
    tech="explicit-state BFS of the real implementation with a signal-accounting observer"),
  "C10": dict(engine="E1", cat="model_checking", ref="3 C10",
    text="Product BFS over (combined framework, solo framework), both the real implementation: the subject machine next to neighbours vs alone on the id-mapped history; the subject's returned actions must be identical at every explored transition.",
@@ -49,10 +49,10 @@ SIMNOTE = "Traces of a few packets, two-state deterministic gadget machines (S-l
 META.update({
  "C14": dict(engine="E4", cat="model_checking", ref="5 C14",
    text="All input traces up to a length bound over window-edge gaps and both directions x network delays x both APIs (sim, sim_advanced) x every output-filter combination, run on the real simulator without machines; oracle: the network-visible events equal the input trace exactly (mirrored, shifted by the delay at the server), nothing else.",
-   note="Traces <= 4 (quick) / 5 packets over gaps {0,1ns,1us,100ms,100ms+1ns,1s}; delays {0,1ns,10ms}.",
+   note="Traces <= 5 (quick) / 6 packets over gaps {0,1ns,1us,100ms,100ms+1ns,1s}; delays {0,1ns,10ms}.",
    tech="bounded-exhaustive enumeration of inputs executed on the real simulator against an independent reference trace"),
  "C15": dict(engine="E4", cat="model_checking", ref="5 C15",
-   text=E4 + "; oracle on the unfiltered trace: time order, exact matching of every TunnelRecv to a distinct earlier TunnelSent of the same kind on the other side at least one network delay before, normal-packet conservation per side (equality when the run ended by itself); includes systems with more than a thousand packets held back by one block.",
+   text=E4 + "; oracle on the unfiltered trace: time order, exact matching of every TunnelRecv to a distinct earlier TunnelSent of the same kind on the other side at least one network delay before, normal-packet conservation per side (equality when the run ended by itself); includes systems with more than a thousand packets held back by one block, seeds at the top of the u64 range, and systems with integration reporting / trigger delays under every length bound 0-9, for which only the time order of the returned trace is judged.",
    note=SIMNOTE, tech="bounded-exhaustive enumeration of closed systems on the real simulator with a conservation/causality oracle"),
  "C16": dict(engine="E4", cat="model_checking", ref="5 C16",
    text=E4 + " for sets containing blocking gadgets (all four bypass/replace combinations, overlapping and back-to-back blocks, durations from 0); per-side monitor bound to the run by replay: blocking window per the contract, exactly one BlockingEnd at expiry after the begin, every TunnelSent inside the window bypass-flagged, allowed by every action that started/updated the blocking, and earned by a bypass padding action.",
@@ -79,7 +79,7 @@ META.update({
    tech="exhaustive single-fault enumeration of valid encodings plus bounded-exhaustive short-string enumeration, with crash containment and a heap-peak oracle"),
  "C12": dict(engine="E3", cat="exploration", ref="4 C12",
    text="Bounded-exhaustive enumeration of machine literals assembled through the public constructors and fields: every numeric slot (machine fractions, transition probabilities, every parameter / start / max of all 11 distribution families in 7 positions) set to each value of a 22-value corner menu (NaN, infinities, negative zero, subnormals, one ulp beyond each bound), plus structural faults; the four judgements Machine::new / validate / Framework::new / from_str(serialize) must agree, accepted machines must satisfy an independent well-formedness predicate, build frameworks for fractions in [0,1] and run; Framework::new is judged on every pair of corner values as its own fractions.",
-   note="One slot at a time, pairs of slots both at one of 8 extremes (thorough: all pairs within a distribution and pairs of fractions); the distribution-domain predicate is no stronger than rand_distr 0.4.3's.",
+   note="One slot at a time, all corner pairs of slots within a distribution, pairs and triples of transition probabilities, pairs of fractions (thorough: also triples of slots over a 10-value extreme menu); the distribution-domain predicate is no stronger than rand_distr 0.4.3's.",
    tech="bounded-exhaustive input enumeration against an independent reference predicate with a four-way differential between the acceptance paths"),
  "C13": dict(engine="E3", cat="exploration", ref="4 C13",
    text="All validated distributions of a parameter corner grid over the 11 families x (start,max) corner pairs, each sampled under every RNG script that deviates from a fair stream by a prefix of at most d extreme words (d = 2 quick / 3 thorough, 9-word menu) or a 64-word constant prefix, followed by a fair tail; oracle: returns within 1e5 draws and 250 ms (watchdog-isolated helper processes for Binomial), no panic, value not NaN, >= 0, <= max when set; also through the framework's consumers (timeout, duration, limit, counter).",
